@@ -571,38 +571,40 @@ mod stream {
     }
 
     pub fn next_expanded<S: TexlangState>(vm: &mut vm::VM<S>) -> txl::Result<Option<Token>> {
-        let (token, command) = match next_unexpanded(vm)? {
-            None => return Ok(None),
-            Some(token) => match token.value() {
-                token::Value::CommandRef(command_ref) => {
-                    (token, vm.commands_map.get_command(&command_ref))
+        // This is a loop, and not a recursive call after each expansion, so that the stack depth
+        // does not grow with the number of consecutive expansions.
+        loop {
+            let (token, command) = match next_unexpanded(vm)? {
+                None => return Ok(None),
+                Some(token) => match token.value() {
+                    token::Value::CommandRef(command_ref) => {
+                        (token, vm.commands_map.get_command(&command_ref))
+                    }
+                    _ => return Ok(Some(token)),
+                },
+            };
+            match command {
+                Some(command::Command::Expansion(command, tag)) => {
+                    let command = *command;
+                    let tag = *tag;
+                    match S::expansion_override_hook(token, ExpansionInput::new(vm), tag) {
+                        Ok(None) => (),
+                        Ok(Some(override_expansion)) => {
+                            return Ok(Some(override_expansion));
+                        }
+                        Err(err) => return Err(err),
+                    };
+                    vm.stack_push(token, error::OperationKind::Expansion);
+                    let err_or = command(token, ExpansionInput::new(vm));
+                    vm.stack_pop();
+                    err_or?;
+                }
+                Some(command::Command::Macro(command)) => {
+                    let command = command.clone();
+                    command.call(token, ExpansionInput::new(vm))?;
                 }
                 _ => return Ok(Some(token)),
-            },
-        };
-        match command {
-            Some(command::Command::Expansion(command, tag)) => {
-                let command = *command;
-                let tag = *tag;
-                match S::expansion_override_hook(token, ExpansionInput::new(vm), tag) {
-                    Ok(None) => (),
-                    Ok(Some(override_expansion)) => {
-                        return Ok(Some(override_expansion));
-                    }
-                    Err(err) => return Err(err),
-                };
-                vm.stack_push(token, error::OperationKind::Expansion);
-                let err_or = command(token, ExpansionInput::new(vm));
-                vm.stack_pop();
-                err_or?;
-                next_expanded(vm)
             }
-            Some(command::Command::Macro(command)) => {
-                let command = command.clone();
-                command.call(token, ExpansionInput::new(vm))?;
-                next_expanded(vm)
-            }
-            _ => Ok(Some(token)),
         }
     }
 
